@@ -4,6 +4,8 @@ import re
 import hir as H
 import mir as M
 import rulelib as L
+import symrules as SR
+import sym
 
 CRATES = ["identity_credential"]
 SL = "identity_credential::revocation::status_list_2021::status_list::StatusList2021"
@@ -36,6 +38,49 @@ def _mask_sites(F, body, kind_ops):
                 continue
             out.append((bi, rv["op"], eb.local(body, idx[0]["idx"], None, 0, frozenset()), eb.operand(body, mask_op, None, 0, frozenset())))
     return out
+
+
+
+def _one_way_sym(F, r5, fn):
+    """By abstract evaluation (helpers inlined): no path on which `purpose == Revocation ∧ ¬value ∧ current bit set` is still possible
+    reaches StatusList2021::set; the current bit is read before the write, at the same index."""
+    tab = SR.Table(F, fn, opaque=r"StatusList2021::(get|set)$", rule=r5, max_paths=4000)
+    n = 0
+    atoms = set()
+    for q in tab.paths:
+        sets = [(i, e) for i, e in enumerate(q.events) if e.kind == "call" and (e.fn or "").endswith("StatusList2021::set")]
+        if not sets:
+            if SR.is_success(q.ret):
+                r5.fail((fn, "ok-without-set"), "%s returns Ok without calling StatusList2021::set" % short_(fn))
+            continue
+        n += 1
+        si, se = sets[0]
+        gets = [(i, e) for i, e in enumerate(q.events) if e.kind == "call" and (e.fn or "").endswith("StatusList2021::get") and q.succeeded(e) is True and i < si]
+        purpose = None
+        for t_, v_ in q.variant.items():
+            if isinstance(v_, str) and v_ in ("Revocation", "Suspension") and SR.derives(t_, SR.SELF):
+                purpose = v_
+                atoms.add("purpose")
+        val = q.val.get(("truth", SR.param("value")))
+        if val is not None:
+            atoms.add("value")
+        cur = None
+        for gi, ge in gets:
+            tv = q.val.get(("truth", ("payload", ge.result.t, "Ok", 0)))
+            if tv is not None and sym.term(ge.args[1]) == sym.term(se.args[1]):
+                cur = tv
+                atoms.add("current")
+        excluded = purpose == "Suspension" or val is True or cur is False
+        r5.require(excluded, (fn, "clear-revoked-reaches", "StatusList2021::set"),
+                   "a call clearing (value=false) a set entry of a Revocation list can reach StatusList2021::set: on a path to the write, purpose=%s, value=%s, current entry=%s (the current bit must be read before the write, at the same index)" % (
+                       purpose or "not examined", val if val is not None else "not examined", cur if cur is not None else "not read before the write"))
+        r5.require(sym.term(se.args[1]) == SR.param("index") and sym.term(se.args[2]) == SR.param("value"), (fn, "set-args"), "StatusList2021::set is not called with (index, value)")
+    r5.site("%s: %d path(s) reach StatusList2021::set; each excludes (Revocation ∧ ¬value ∧ current)" % (short_(fn), n))
+    r5.require({"purpose", "value", "current"} <= atoms or not tab.paths, (fn, "atoms"), "the purpose/value/current-entry tests were not all found as branches (found %s)" % sorted(atoms))
+
+
+def short_(fn):
+    return "::".join(fn.split("::")[-2:])
 
 
 def run(F, R, tier):
@@ -186,10 +231,9 @@ def run(F, R, tier):
     # ---------------------------------------------------------------- R5 one-way revocation (T2, T6, T1)
     r5 = R.rule("C12-R5", "T2", "revocation entries cannot be cleared: `purpose==Revocation && !value && current` never reaches StatusList2021::set or Ok")
     for fn in (CR + "::StatusList2021Credential::set_entry", CR + "::MutStatusList::set_entry"):
-        body = F.mir(fn)
-        if not r5.anchor(body, fn):
+        if not r5.anchor(F.hir(fn), fn):
             continue
-        _one_way(F, r5, body, fn)
+        _one_way_sym(F, r5, fn)
     # who may call StatusList2021::set / write encoded_list
     allowed_set = {CR + "::StatusList2021Credential::set_entry", CR + "::MutStatusList::set_entry"}
     for (p, bi, t) in F.callers(SL + "::set"):
